@@ -1,4 +1,4 @@
-CONSTANTS MCKind = "combined"  Enforce <- NoProps  Configs <- MCConfigs  Requests <- MCRequests  Opcodes <- QuickOps
+CONSTANTS MCKinds <- AllKinds  Enforce <- NoProps  Configs <- MCConfigs  Requests <- MCRequests  Opcodes <- QuickOps  LenClasses <- QuickLens
 SPECIFICATION Spec
 INVARIANTS TypeOK KeyOnlyAfterSuccess DistAfterCompletion
 CHECK_DEADLOCK FALSE
